@@ -282,7 +282,7 @@ def c01(tier, repo=None):
         scs, run = engine.gen_chains("ChainGen_q.cfg" if tier == "quick" else "ChainGen_t.cfg")
         log("  family chain: %d chain scenarios (stage sequences x branch policies, TLC %d states) with their lowering" % (len(scs), run.distinct))
         return scs + nest(scs, rnd, 0.5)       # half of them once more with a stage member turned into a graph (AppendGraph / Parallel.AddGraph / ChainBranch.AddGraph)
-    return run_engine_check("C01", tier, model_cfgs=models, families=fams, decorate_kw={"echo_frac": 0.12, "rmax_frac": 0.15}, nontrivial=nontrivial,
+    return run_engine_check("C01", tier, model_cfgs=models, families=fams, decorate_kw={"echo_frac": 0.12, "rmax_frac": 0.15, "anyout_frac": 0.1, "all_paradigms": True}, nontrivial=nontrivial,
                             nest_frac=0.08, repo=repo, extra_scenarios=chains,
                             assumptions=["graphs in which an edge and a branch of one source target the same node are outside the universe"])
 
@@ -344,7 +344,7 @@ def c05(tier, repo=None):
     fams, limit = _intr_families(tier)
     return run_engine_check("C05", tier, model_cfgs=["MC_EinoRun_pregel2.cfg", "MC_EinoRun_nest_before.cfg"] + (["MC_EinoRun_dag3.cfg", "MC_EinoRun_nest_after.cfg"] if tier == "thorough" else []),
                             model_must_fail=["MC_EinoRun_nest_stale.cfg"],
-                            families=fams, decorate_kw={"state_frac": 0.3, "rmax_frac": 0.08}, nontrivial=nontrivial, nest_frac=0.12, nest_marks=True,
+                            families=fams, decorate_kw={"state_frac": 0.3, "rmax_frac": 0.08, "anyout_frac": 0.25, "all_paradigms": True}, nontrivial=nontrivial, nest_frac=0.12, nest_marks=True,
                             limit=limit, repo=repo,
                             assumptions=["the step counter restarts with every call, so cyclic graphs interrupted at every step are cut off after 12 node executions (giveup), never judged",
                                          "equivalence with the uninterrupted run is decided by the rule: every execution must be due with exactly the predicted input, so the executions with interrupt/resume marks removed are the uninterrupted run"])
@@ -358,7 +358,7 @@ def c06(tier, repo=None):
     fams = fams + [("if2", consts("pregel", 2, 3, 1, 1, marks=1, fail=True, maxchoice=(3,)), {})]     # errors must not write a checkpoint
     return run_engine_check("C06", tier, model_cfgs=["MC_EinoRun_pregel2.cfg", "MC_EinoRun_nest_after.cfg"] + (["MC_EinoRun_dag3.cfg", "MC_EinoRun_nest_before.cfg"] if tier == "thorough" else []),
                             model_must_fail=["MC_EinoRun_nostartcheck.cfg"],
-                            families=fams, decorate_kw={"noid_frac": 0.12, "state_frac": 0.3}, nontrivial=nontrivial, nest_frac=0.12,
+                            families=fams, decorate_kw={"noid_frac": 0.12, "state_frac": 0.3, "all_paradigms": True}, nontrivial=nontrivial, nest_frac=0.12,
                             nest_marks=True, limit=limit, repo=repo,
                             assumptions=["'stops before any of its successors starts' is read per the statement: only successors triggered by the after-node are constrained"])
 
